@@ -29,12 +29,17 @@ def make(spec):
     from skmatter import feature_selection as fs
     from skmatter import sample_selection as ss
 
+    from . import forms
+
     mod = fs if spec["dir"] == "feature" else ss
     kw = dict(spec.get("kw", {}))
     init = kw.get("initialize")
     if isinstance(init, dict):  # {"list": [...]} or {"array": [...]}
         kw["initialize"] = list(init["list"]) if "list" in init else np.array(init["array"], dtype=int)
-    return getattr(mod, spec["cls"])(**kw)
+    how = spec.get("how", "ctor")
+    if how == "clone" and spec["cls"] == "VoronoiFPS":
+        how = "ctor"  # its **kwargs constructor hides parameters from clone (DESIGN 11.5)
+    return forms.configure(getattr(mod, spec["cls"]), kw, how)
 
 
 def axis_of(spec):
@@ -224,6 +229,12 @@ def first_repeat(seq):
 
 
 def fit(est, X, y, spec, warm=False):
+    from . import forms
+
+    if spec.get("xint") and np.all(np.asarray(X) == np.round(X)):  # whole-number data handed over with an integer dtype
+        X = np.asarray(X).astype(spec["xint"])
+    X = forms.present(X, spec.get("xform", "C"))
+    y = forms.present(y, spec.get("yform", "C"))
     if y is None:
         return est.fit(X, warm_start=warm) if warm else est.fit(X)
     return est.fit(X, y, warm_start=warm) if warm else est.fit(X, y)
